@@ -68,12 +68,9 @@ Proof.
   split_ifs; leaf.
 Qed.
 
-(* resp_fixed is a closed probe of the generated code: it is evaluated first, so the lemma holds for the encoder with
-   and without the repair of C20-F1 *)
 Lemma CMDResponse_clock_ref wvalid wv st vin size start ready :
-  CMDResponse_clock wvalid wv st vin size start ready = resp_ref resp_fixed wvalid wv st vin size start ready.
+  CMDResponse_clock wvalid wv st vin size start ready = resp_ref wvalid wv st vin size start ready.
 Proof.
-  let b := eval vm_compute in resp_fixed in change resp_fixed with b.
   destruct st as [s t ts a].
   unfold CMDResponse_clock, resp_ref, mk_rs_st, mk_rs_out, py_truth.
   rewrite !Wire_prepare_trunc.
